@@ -467,4 +467,66 @@ class Defaults(object):
         return repr(outcome), vs, 2
 
 
-FAMILIES = [Refinements(), Defaults()]
+class SameNamedTypes(object):
+    name = 'same-named-types'
+    describe = ('TEST-MIB and REMOTE-MIB each define a type called Mode with DIFFERENT base types, each with an object of that type '
+                'carrying a DEFVAL; TEST-MIB imports a node of REMOTE-MIB so that both are generated in one compile() call: every '
+                'ordered pair of base types, plain assignment / TC, both request orders')
+
+    def blocks(self, tier):
+        return [{'a': i} for i in range(len(BASES))]
+
+    def cases(self, block, tier):
+        for b in range(len(BASES)):
+            if b == block['a']:
+                continue
+            for tc in (0, 1):
+                for ro in (0, 1):
+                    yield {'a': block['a'], 'b': b, 'tc': tc, 'ro': ro}
+
+    def run_case(self, case):
+        def typedecl(syn):
+            if case['tc']:
+                return {'k': 'tc', 'name': 'Mode', 'display': None, 'status': 'current', 'descr': 'd', 'syntax': syn}
+            return {'k': 'type', 'name': 'Mode', 'syntax': syn}
+        la, sa, pa = BASES[case['a']]
+        lb, sb, pb = BASES[case['b']]
+        dva, dvb = DEFVALS[pa][0], DEFVALS[pb][0]
+        rmod = {'name': 'REMOTE-MIB', 'decls': [{'k': 'value', 'name': 'remoteNode', 'oid': ['enterprises', 777]}, typedecl(sb),
+                                                  obj('remoteObj', ('ref', 'Mode'), 1, defval=dvb)]}
+        rmod['decls'][-1]['oid'] = ['remoteNode', 1]
+        lmod = {'name': 'TEST-MIB', 'decls': ctx() + [typedecl(sa), obj('dvObj', ('ref', 'Mode'), 1, defval=dva),
+                                                     {'k': 'value', 'name': 'underRemote', 'oid': ['remoteNode', 9]}]}
+        mods = [refir.finish_module(rmod, [rmod, lmod]), refir.finish_module(lmod, [rmod, lmod])]
+        uni = refir.Universe(mods)
+        texts = dict((m['name'], mibspec.pretty([m])) for m in mods)
+        req = ['TEST-MIB', 'REMOTE-MIB'] if case['ro'] else ['REMOTE-MIB', 'TEST-MIB']
+        vs = []
+        outcome = []
+        sig = 'C05|same-named-types|%s-vs-%s' % (pa, pb)
+        for backend in ('json', 'pysnmp'):
+            if backend == 'pysnmp' and 'bits' in (pa, pb):
+                continue  # K17: a BITS DEFVAL breaks the pysnmp back end on its own (and with it the whole call)
+            parser = env.shared_parser('smiV2')
+            parser.reset()
+            res, written = env.compile_set(texts, req, codegen=backend, dialect=parser)
+            for modname, objname, syn_, dv, prim in (('TEST-MIB', 'dvObj', sa, dva, pa), ('REMOTE-MIB', 'remoteObj', sb, dvb, pb)):
+                if res.get(modname) != 'compiled':
+                    if backend == 'pysnmp' and prim == 'bits':
+                        continue  # K17: a BITS DEFVAL breaks the pysnmp back end on its own
+                    vs.append(('%s|%s|not-compiled' % (sig, backend), '%s: %r %r\n%s' % (
+                        modname, res.get(modname), getattr(res.get(modname), 'error', None), texts[modname])))
+                    continue
+                want = expected_denotation(uni, modname, ('ref', 'Mode'), dv)
+                if backend == 'json':
+                    doc = json.loads(written[modname])
+                    got = json_denotation(doc.get(objname, {}), uni, modname, ('ref', 'Mode'))
+                    outcome.append(repr(doc.get(objname, {}).get('default')))
+                    if got != want:
+                        vs.append(('%s|json|default-%s' % (sig, 'missing' if got is None else 'differs'),
+                                   '%s.%s: DEFVAL %r denotes %r, document %r denotes %r\n%s' % (
+                                       modname, objname, dv, want, doc.get(objname, {}).get('default'), got, texts[modname])))
+        return repr(outcome), vs, 2
+
+
+FAMILIES = [Refinements(), Defaults(), SameNamedTypes()]
